@@ -325,13 +325,21 @@ func (x *X) finishRun(res simrt.Result) {
 	}
 	switch {
 	case res.Deadlock != nil:
-		x.viol([]string{"C12"}, "hang.cycle", cycleSig(res.CycleSig), strings.Join(res.Deadlock, "\n"))
+		props := []string{"C12"}
+		if x.p.Engine == "convert" {
+			props = append(props, "C17") // "the conversion itself always terminates"
+		}
+		x.viol(props, "hang.cycle", cycleSig(res.CycleSig), strings.Join(res.Deadlock, "\n"))
 	case res.OutOfSteps:
 		if out.Infra == "" {
 			out.Infra = "step budget exhausted"
 		}
 	case res.Stalled:
-		x.viol([]string{"C12"}, "hang.stall", stallSig(sim.Unfinished()), "no task runnable and no timer pending:\n"+strings.Join(sim.Dump(), "\n"))
+		props := []string{"C12"}
+		if x.p.Engine == "convert" {
+			props = append(props, "C17")
+		}
+		x.viol(props, "hang.stall", stallSig(sim.Unfinished()), "no task runnable and no timer pending:\n"+strings.Join(sim.Dump(), "\n"))
 	case res.Aborted:
 		if strings.HasPrefix(res.Reason, "liveness:") {
 			// recorded by the watchdog itself
